@@ -159,6 +159,9 @@ func vSubSeed(seed int64, prop string, idx int) int64 {
 	return int64(h.Sum64() & 0x7fffffffffffffff)
 }
 
+// vRestartAfterCase asks the case runner to end this process after the current case; the driver starts a fresh one.
+var vRestartAfterCase bool
+
 var vOutDir string
 var vJournal, vResults *os.File
 var vOutMu sync.Mutex
@@ -191,7 +194,8 @@ func vRunCase(p *vProp, prop, tier string, seed int64, idx int) {
 	c.Dir = filepath.Join(vOutDir, fmt.Sprintf("case%d", idx))
 	os.MkdirAll(c.Dir, 0o755)
 	vWriteLine(vJournal, map[string]any{"ev": "start", "idx": idx})
-	func() {
+	done := make(chan struct{})
+	go vCaseMarker(done, func() {
 		defer func() {
 			if r := recover(); r != nil {
 				st := string(debug.Stack())
@@ -199,7 +203,28 @@ func vRunCase(p *vProp, prop, tier string, seed int64, idx int) {
 			}
 		}()
 		p.Run(c)
-	}()
+	})
+	select {
+	case <-done:
+	case <-time.After(vCaseTimeout):
+		// The case itself does not come back (a call into the code under test that the harness did not expect to
+		// block). Same decision procedure as vWatched: parked in the same frames in two dumps, nothing runnable => hang.
+		d1 := vDump()
+		time.Sleep(2 * time.Second)
+		d2 := vDump()
+		g1, s1 := vFindMarkedBy(d1, "vCaseMarker")
+		g2, s2 := vFindMarkedBy(d2, "vCaseMarker")
+		select {
+		case <-done:
+		default:
+			vRestartAfterCase = true
+			if g1 != "" && vFrames(g1) == vFrames(g2) && !vAnyRunnableRepo(d2) {
+				c.Violate("hang:case@"+vTopRepoFrame(g2), "the case did not finish within %v: its goroutine is parked [%s/%s] in the same frames in two dumps 2 s apart and no repository goroutine is runnable\n%s", vCaseTimeout, s1, s2, vTrim(g2, 2500))
+			} else {
+				c.Inconclusive("slow:case", "the case did not finish within %v and the wait-state analysis is not conclusive", vCaseTimeout)
+			}
+		}
+	}
 	os.RemoveAll(c.Dir)
 	c.mu.Lock()
 	h := fnv.New64a()
@@ -218,6 +243,12 @@ func vRunCase(p *vProp, prop, tier string, seed int64, idx int) {
 	c.mu.Unlock()
 	vWriteLine(vResults, res)
 	vWriteLine(vJournal, map[string]any{"ev": "end", "idx": idx})
+	if vRestartAfterCase && os.Getenv("VERIF_ONLY") == "" {
+		// the harness's per-process environment is no longer usable (set by the harness): continue in a fresh process
+		vJournal.Sync()
+		vResults.Sync()
+		os.Exit(77)
+	}
 	// A case that left goroutines of the system under test wedged or leaked has contaminated this process
 	// (later goroutine censuses and wait-state analyses would see its leftovers): let the driver start a fresh one.
 	if res.Kind == "violation" && (strings.HasPrefix(res.Sig, "hang:") || strings.Contains(res.Sig, "goroutine-leak") || strings.Contains(res.Sig, "data-stalled") || strings.Contains(res.Sig, "core-loop-gone")) && os.Getenv("VERIF_ONLY") == "" {
@@ -332,6 +363,27 @@ func vWatched(c *vCase, what string, patience time.Duration, f func()) bool {
 	}
 	c.Inconclusive("slow:"+what, "%s had not returned after %v but the wait-state analysis is not conclusive (state %q/%q)", what, patience, s1, s2)
 	return false
+}
+
+// vCaseTimeout bounds one case (the longest legitimate cases take well under a minute).
+const vCaseTimeout = 120 * time.Second
+
+func vCaseMarker(done chan struct{}, f func()) {
+	defer close(done)
+	f()
+}
+
+func vFindMarkedBy(dump, marker string) (block, state string) {
+	for _, b := range strings.Split(dump, "\n\n") {
+		if strings.Contains(b, marker) {
+			first := strings.SplitN(b, "\n", 2)[0]
+			if i := strings.Index(first, "["); i >= 0 {
+				state = strings.TrimSuffix(strings.TrimSpace(first[i+1:]), "]:")
+			}
+			return b, state
+		}
+	}
+	return "", ""
 }
 
 func vWatchedMarker(done chan struct{}, f func()) {
